@@ -85,6 +85,9 @@ class FakeWriter:
         self.waiters = collections.deque()
         self.writes_after_close = 0
         self.drains = 0
+        self.own_reader = None  # FakeReader of the same endpoint: sees EOF when the transport is closed
+        self.on_lost = None  # callable(): tell the link that this end closed (peer will see EOF)
+        self._close_waiter = None
 
     def write(self, data):
         if not isinstance(data, (bytes, bytearray, memoryview)):
@@ -129,13 +132,41 @@ class FakeWriter:
                 f.set_result(None)
 
     def close(self):
+        """Like a real transport: connection_lost() runs in a later loop iteration; it completes
+        wait_closed() and feeds EOF to the StreamReader of the same connection."""
+        if self.closed:
+            return
         self.closed = True
+        try:
+            loop = asyncio.get_running_loop()
+        except RuntimeError:
+            self._connection_lost()
+            return
+        if self._close_waiter is None:
+            self._close_waiter = loop.create_future()
+        loop.call_soon(self._connection_lost)
+
+    def _connection_lost(self):
+        # order as in asyncio.StreamReaderProtocol.connection_lost: reader first, then the close waiter
+        if self.own_reader is not None and not self.own_reader.eof and self.own_reader.exc is None:
+            self.own_reader.feed_eof()
+        if self._close_waiter is not None and not self._close_waiter.done():
+            self._close_waiter.set_result(None)
+        if self.on_lost is not None:
+            cb, self.on_lost = self.on_lost, None
+            cb()
 
     def is_closing(self):
         return self.closed
 
     async def wait_closed(self):
-        return None
+        if not self.closed:
+            raise RuntimeError("wait_closed() before close()")
+        if self._close_waiter is None:
+            self._close_waiter = asyncio.get_running_loop().create_future()
+            if self.closed:
+                asyncio.get_running_loop().call_soon(self._connection_lost)
+        await self._close_waiter
 
     def get_extra_info(self, name, default=None):
         if name == "peername":
@@ -216,6 +247,7 @@ def _mk_endpoint_classes():
             self.logon_on_connect = True
             self.hb_in_logon = None
             self.gates = None  # scheduler gates for C14
+            self.raise_filter = None  # callable(msg) -> bool: on_message raises after recording the delivery
 
         async def _gate(self, name):
             g = self.gates
@@ -228,6 +260,8 @@ def _mk_endpoint_classes():
             )
             self.ev.append(("msg", str(msg.msg_type), msg.get(FTag.MsgSeqNum, None)))
             await self._gate("on_message")
+            if self.raise_filter is not None and self.raise_filter(msg):
+                raise RuntimeError("application callback failed")
 
         async def on_connect(self):
             self.ev.append(("connect",))
@@ -353,6 +387,22 @@ def stored_counters(j, target, sender):
     return (r[0] + 1, r[1] + 1)
 
 
+def committed_counters(path, target, sender):
+    """(next_in, next_out) as a NEW process would load them: read through a brand-new sqlite
+    connection on the journal file, i.e. committed data only. None if the session row does not exist."""
+    import sqlite3
+
+    con = sqlite3.connect(path, timeout=0)
+    try:
+        r = con.execute(
+            "SELECT inboundSeqNo, outboundSeqNo FROM session WHERE targetCompId=? AND senderCompId=?",
+            (target, sender),
+        ).fetchone()
+    finally:
+        con.close()
+    return None if r is None else (r[0] + 1, r[1] + 1)
+
+
 def journal_rows(j, session_key=None):
     """sorted list of (session, direction, seqno, bytes)."""
     rows = j.get_all_msgs()
@@ -381,7 +431,7 @@ def prim_attrs(o, skip=()):
 
 HOOK_ATTRS = {
     "ev", "delivered", "states", "n_disconnect", "n_logon", "n_logout",
-    "replay_filter", "logon_on_connect", "gates", "hb_in_logon", "log",
+    "replay_filter", "logon_on_connect", "gates", "hb_in_logon", "log", "raise_filter",
 }
 
 
@@ -450,6 +500,7 @@ class World1:
     # -- connection management ---------------------------------------------
     def connect(self, settle=True):
         self.reader, self.writer = FakeReader(), FakeWriter()
+        self.writer.own_reader = self.reader
         self.seen = 0
         if self.role == "initiator":
             self.net.pending_client = (self.reader, self.writer)
